@@ -408,9 +408,21 @@ def read_headers_file_order(crate, NL=2, NR=2):
     from .ob_blob import _check_paths
     from .ob_record import BYTES_SUMMARIES, mk_buf
 
+    IDS = {"hit": 100}
+    for k in range(1, NL + 1):
+        IDS["l%d" % k] = 100 - k          # ids = position in the file relative to the hit
+    for k in range(1, NR + 1):
+        IDS["r%d" % k] = 100 + k
+    NAMES = {v: k for k, v in IDS.items()}
+    hfi = P.record_header_fields(crate)
+
     def hdr(tag):
-        h = Obj(P.HEADER_TY); h.fields[("ghost", "pos")] = tag
+        h = P.mk_header(crate, "rec_" + tag)
+        h.fields[("ghost", "pos")] = Sym(BV64(IDS[tag]), "u64")
         return h
+
+    def ts_of(tag):
+        return z3.BitVec("rec_%s_ts" % tag, 64)
     tq = ts = 0
     for nl in range(NL + 1):
         for nr in range(NR + 1):
@@ -420,6 +432,9 @@ def read_headers_file_order(crate, NL=2, NR=2):
             me = Obj("bptree::core::BPTreeFileIndex<K>")
             mc = st.new_cell(me)
             st.pc.append(z3.ULE(z3.BitVec("hv_leaf_buf", 64), BV64(4096)))
+            order = ["l%d" % k for k in range(nl, 0, -1)] + ["hit"] + ["r%d" % k for k in range(1, nr + 1)]
+            for a_, b_ in zip(order, order[1:]):      # the run is stored in rank order (from_records_order): newest first
+                st.pc.append(z3.UGE(ts_of(a_), ts_of(b_)))
 
             def call_hook(ex_, st_, cname, args, dty):
                 if cname == "BPTreeFileIndex::leaf_node_buf_size":
@@ -457,7 +472,7 @@ def read_headers_file_order(crate, NL=2, NR=2):
                     if not z3.is_bv_value(n0):
                         raise Unsupported("walk over a vector of symbolic length")
                     n0 = n0.as_long()
-                    st_.events.append(("walk", walk, [hh.fields.get(("ghost", "pos")) if isinstance(hh, Obj) else None for hh in v.elems[:n0]], None))
+                    st_.events.append(("walk", walk, [True if isinstance(hh, Obj) and ("ghost", "pos") in hh.fields else None for hh in v.elems[:n0]], None))
                     new = list(v.elems)
                     for k in range(_nl if walk == "left" else _nr):
                         new[n0 + k] = hdr("%s%d" % (walk[0], k + 1))
@@ -491,12 +506,14 @@ def read_headers_file_order(crate, NL=2, NR=2):
                     res.status = "inconclusive"; res.detail = "result vector not modelled"; return False
                 if not P.prove(ex, res, o, z3.Implies(z3.And(isok, some), v.len.t == BV64(len(want))), "all %d collected records are returned" % len(want)):
                     return False
-                got = [e.fields.get(("ghost", "pos")) if isinstance(e, Obj) else None for e in v.elems[:len(want)]]
-                if got != want:
-                    res.status = "violated"
-                    res.detail = "records of the key are returned as %s, file order is %s" % (got, want)
-                    res.counterexample = {"left": nl, "right": nr, "returned": got, "file_order": want}
-                    return False
+                for i, w in enumerate(want):
+                    e = v.elems[i]
+                    g = e.fields.get(("ghost", "pos")) if isinstance(e, Obj) else None
+                    if g is None:
+                        res.status = "violated"; res.detail = "entry %d of the result is not a record of the run" % i; return False
+                    if not P.prove(ex, res, o, z3.Implies(z3.And(isok, some), g.t == BV64(IDS[w])),
+                                   "entry %d of the result is %s (file order %s, %d left / %d right of the hit)" % (i, w, want, nl, nr)):
+                        return False
                 for w in [e for e in o.events if e[0] == "walk" and e[1] == "right"]:
                     if not w[2] or w[2][0] is None:
                         res.status = "violated"; res.detail = "go_right starts from an empty vector (it compares with headers[0])"; return False
